@@ -243,10 +243,13 @@ func (sess *session) Attach(ctx context.Context, fid, afid Fid,
 		var err error
 
 		aref, err = sess.getRef(afid)
-		if err != nil || aref.File == nil {
+		if err != nil {
 			return Qid{}, ErrUnknownfid
 		}
 		defer aref.Unlock()
+		if aref.File == nil {
+			return Qid{}, ErrUnknownfid
+		}
 
 		af, ok = aref.File.(AuthFile)
 		if !ok {
